@@ -37,17 +37,15 @@ func TestExplain(t *testing.T) {
 
 // TestEncloseSurvey (builder's tool, C19_SURVEY=1): runs the enclose oracle
 // over a fixed grid (every form x a few heads x every count x three argument
-// spellings) with the pending-finding suppression off and prints each distinct
-// failure key with its first example.
+// spellings) without a known-findings list and prints each distinct failure key
+// with its first example.
 func TestEncloseSurvey(t *testing.T) {
 	if os.Getenv("C19_SURVEY") == "" {
 		t.Skip("C19_SURVEY not set")
 	}
-	os.Setenv("C19_NO_PENDING", "1")
 	registry()
 	seen := map[string]int{}
 	first := map[string]string{}
-	firstCase := map[string]EncCase{}
 	n := 0
 	run := func(c EncCase) {
 		n++
@@ -56,29 +54,9 @@ func TestEncloseSurvey(t *testing.T) {
 			seen[f.Key]++
 			if first[f.Key] == "" {
 				first[f.Key] = f.Msg
-				firstCase[f.Key] = c
 			}
 		}
 	}
-	defer func() {
-		// C19_SURVEY_OUT=dir: store the first (smallest) example of every
-		// pending key as a replay file
-		dir := os.Getenv("C19_SURVEY_OUT")
-		if dir == "" {
-			return
-		}
-		for k, c := range firstCase {
-			if !pendingHead[k] {
-				continue
-			}
-			raw, _ := json.Marshal(c)
-			b, _ := json.MarshalIndent(map[string]any{"property": "C19", "sub": "enclose", "key": k, "msg": first[k], "case": json.RawMessage(raw)}, "", " ")
-			name := strings.NewReplacer("/", "_", "*", "star", "!", "bang").Replace(strings.TrimPrefix(k, "arity/")) + ".json"
-			if err := os.WriteFile(filepath.Join(dir, name), append(b, '\n'), 0o644); err != nil {
-				t.Error(err)
-			}
-		}
-	}()
 	spell := map[string][]string{"lit": {"1", `"s"`, "'(1 2)", "2.5"}, "sym": {"v1", "true", "v2", "false"}, "call": {"(list 1)", "(list)", "(vector 1 2)", "(to-string 1)"}}
 	for _, form := range encFormNames {
 		fm := encForms[form]
@@ -95,6 +73,11 @@ func TestEncloseSurvey(t *testing.T) {
 						c := EncCase{N: head, Form: form, Outer: outer, Style: sp}
 						if head == "USER" {
 							c.N, c.NUser, c.NSig = "f", true, Sig{Req: 1, Opt: 1}
+							if outer == "" && sp == "lit" {
+								// vary the definition with the count
+								c.DefIn = []string{"let", "progn", "", "fn", "cond"}[k]
+								c.Body = []string{"", "empty", "doc-only", "doc+probe", ""}[(k+len(form))%5]
+							}
 						}
 						switch fm.kind() {
 						case "entry1":
@@ -134,41 +117,66 @@ func (surveyRunner) apply(c EncCase) (*vcommon.Failure, *vcommon.Ctx) {
 	return checkEnclose(c, ctx), ctx
 }
 
-// TestPendingFindingsReproduce: every replay stored under pending_findings is a
-// finding of the unchanged tree that the enclose oracle currently lets pass
-// (pendingHead).  Each must still fail with its own key; when /repo is repaired
-// this test says which entry of pendingHead has to go.
-func TestPendingFindingsReproduce(t *testing.T) {
-	files, _ := filepath.Glob("pending_findings/*.json")
-	if len(files) == 0 {
-		t.Skip("no pending findings stored")
+// The 26 failure keys of the enclose sub-property that the unchanged tree
+// produces (five root causes, NOTES.md "Findings of round 6"), each with its
+// minimal case.  They are registered in /verif/known_findings.json; the replay
+// files /verif/regress/C19/known-r6-<name>.json were written from this table
+// (C19_WRITE_R6=<dir> go test -run TestKnownR6 ./c19).
+var knownR6 = func() map[string]EncCase {
+	core := func(n, form string, args ...string) EncCase {
+		return EncCase{N: n, Form: form, Args: append([]string{}, args...), Style: "lit"}
 	}
-	keys := map[string]bool{}
-	for _, fn := range files {
-		b, err := os.ReadFile(fn)
-		if err != nil {
-			t.Fatal(err)
-		}
-		var v vcommon.Violation
-		var c EncCase
-		if err := json.Unmarshal(b, &v); err != nil {
-			t.Fatalf("%s: %v", fn, err)
-		}
-		if err := json.Unmarshal(v.Case, &c); err != nil {
-			t.Fatalf("%s: %v", fn, err)
-		}
-		if !pendingHead[v.Key] {
-			t.Errorf("%s: key %s is not in pendingHead", fn, v.Key)
-		}
-		keys[v.Key] = true
+	user := func(form string, args ...string) EncCase {
+		return EncCase{N: "f", NUser: true, NSig: Sig{Req: 1}, Form: form, Args: append([]string{}, args...), Style: "lit"}
+	}
+	m := map[string]EncCase{}
+	for _, form := range []string{"quasi-unquote", "quasi-unquote-splicing"} {
+		m["arity/enclose/core/"+form+"/missed"] = core("cons", form, "1")
+		m["arity/enclose/core/"+form+"/missed/bare-symbol-args"] = core("cons", form)
+		m["arity/enclose/user/"+form+"/missed"] = user(form, "1", "2")
+		m["arity/enclose/user/"+form+"/missed/bare-symbol-args"] = user(form)
+	}
+	for _, form := range []string{"thread-first-child1", "thread-first-child2", "thread-first-child-mid", "thread-last-child1", "thread-last-child2", "thread-last-child-mid"} {
+		m["arity/enclose/core/"+form+"/false-positive/if-arity"] = core("if", form, "1", `"s"`)
+	}
+	for _, form := range []string{"defconst-value-doc", "defconst-value-doc2", "defuser-value-doc", "defuser-value-first"} {
+		m["arity/enclose/user/"+form+"/missed/bare-symbol-args"] = user(form)
+	}
+	for _, form := range []string{"quote-form", "quote-form-nested", "quoted-nested", "cond-clause", "cond-clause-second", "formals-deftype"} {
+		m["arity/non-call-reported/"+form] = core("cons", form)
+	}
+	for _, place := range []string{"let", "fn"} {
+		c := user("top")
+		c.DefIn = place
+		m["arity/user/nested-defun/"+place+"/missed"] = c
+	}
+	return m
+}()
+
+func r6FileName(key string) string {
+	return "known-r6-" + strings.ReplaceAll(strings.TrimPrefix(key, "arity/"), "/", "_") + ".json"
+}
+
+// TestKnownR6: every case of the table must fail with exactly its key when
+// replayed (no known-findings list is consulted in a replay).  When /repo is
+// repaired this test says which entries of known_findings.json have to become
+// "fixed".  With C19_WRITE_R6=<dir> it also (re)writes the replay files.
+func TestKnownR6(t *testing.T) {
+	dir := os.Getenv("C19_WRITE_R6")
+	for _, key := range sortedKeys(knownR6) {
+		c := knownR6[key]
 		f := checkEnclose(c, &vcommon.Ctx{Replay: true})
-		if f == nil || f.Key != v.Key {
-			t.Errorf("%s: stored as %s, the oracle now says %v -- repaired? then drop the key from pendingHead", fn, v.Key, f)
+		if f == nil || f.Key != key {
+			t.Errorf("%s: the oracle now says %v", key, f)
+			continue
 		}
-	}
-	for k := range pendingHead {
-		if !keys[k] {
-			t.Errorf("pendingHead lists %s but pending_findings holds no replay for it", k)
+		if dir == "" {
+			continue
+		}
+		raw, _ := json.Marshal(c)
+		b, _ := json.MarshalIndent(map[string]any{"property": "C19", "sub": "enclose", "key": key, "msg": f.Msg, "case": json.RawMessage(raw)}, "", " ")
+		if err := os.WriteFile(filepath.Join(dir, r6FileName(key)), append(b, '\n'), 0o644); err != nil {
+			t.Error(err)
 		}
 	}
 }
